@@ -83,8 +83,11 @@ var c12Aggs = []string{"day", "week", "month", "quarter", "year"}
 
 func c12Count(tier fw.Tier) []int {
 	n := len(c12Dates())
-	return []int{n * n, n * n * n, 80}
+	return []int{n * n, n * n * n, 80, c06EvCount(fw.Quick) * len(c12EvClocks)}
 }
+
+// clock readings for the today-ev family (the EV documents are dated relative to 2022-06-15)
+var c12EvClocks = [][2]int{{12, 0}, {23, 59}, {0, 0}}
 
 func init() {
 	fw.Register(&fw.Check{
@@ -92,7 +95,7 @@ func init() {
 		Title: "All evaluation views partition the same total",
 		Rule: "files of 2 (all ordered pairs) and 3 (quick: a fixed quarter of the ordered triples, thorough: all) records dated from a " + fmt.Sprint(len(c12Dates())) + "-date calendar-boundary set (week-year edges of 52/53-week years, leap days, month/quarter/year ends, years 0000/0001/0999/1000/9998/9999), " +
 			"in file order as enumerated (unsorted, descending and duplicate dates occur); record i carries a total of 2^i minutes (so a row total identifies exactly which records it contains), a should-total and, in a variant, a negative total; " +
-			"x aggregation {day, week, month, quarter, year} x {plain, --fill (span <= 800 days), --diff, --fill --diff} x date filter {none, --since/--until, --period}; plus 80 today/--now documents. " +
+			"x aggregation {day, week, month, quarter, year} x {plain, --fill (span <= 800 days), --diff, --fill --diff} x date filter {none, --since/--until, --period}; plus 80 today/--now documents, plus today-ev = every EV document of C06's quick tier (one record of 3 clock-relative dates x 4 should-totals x <=2 of 8 extreme/narrow/wide/open entries, optional second record) x 3 clock readings x {--diff, --diff --now}: the complete `klog today` table (Total, Should, Diff and forecast End-Time of the current-day row, the Other row and the All row) against the reference evaluation. " +
 			"A case = (file, report flags); non-trivial = at least one row; distinct by hash(text, flags).",
 		Assumptions: []string{
 			"independent bucketing by the specmodel calendar; rows are read back from `klog report --decimal --no-style` by fixed label columns (year, month, weekday/day, week, quarter) and by the '=' ruler for value columns",
@@ -110,8 +113,10 @@ func init() {
 					if c.Tier == fw.Thorough || c12DigitSum(i)%4 == 0 {
 						c12Doc(c, "triples", i, 3)
 					}
-				default:
+				case 2:
 					c12Today(c, i)
+				default:
+					c12TodayEV(c, i)
 				}
 				if c.Expired() {
 					return
@@ -128,6 +133,8 @@ func init() {
 				c12Doc(c, cs.Fam, cs.I, 2)
 			case "triples":
 				c12Doc(c, cs.Fam, cs.I, 3)
+			case "today-ev":
+				c12TodayEV(c, cs.I)
 			default:
 				c12Today(c, cs.I)
 			}
@@ -694,4 +701,144 @@ func c12Today(c *fw.Ctx, i int) {
 		c.Outcome("today")
 	}
 	_ = docgen.DefaultLayout
+}
+
+
+// c12TodayEV compares the complete `klog today --diff [--now]` table with the reference evaluation:
+// current-day row (today's records, else yesterday's), Other row, All row; Total/Should/Diff per row and the
+// forecast End-Time = now + (should - total), shown when it lies between <0:00 and 23:59>, else "???".
+func c12TodayEV(c *fw.Ctx, i int) {
+	n := c06EvCount(fw.Quick)
+	text := c06EvDoc(fw.Quick, i%n)
+	clk := c12EvClocks[i/n]
+	ref := sm.Parse(text)
+	if ref.Verdict != sm.Valid {
+		c.Outcome("today-ev-invalid-doc") // two open ranges in one record
+		return
+	}
+	today := sm.DayNumber(sm.Date{Y: 2022, M: 6, D: 15})
+	nowMins := clk[0]*60 + clk[1]
+	dir := fw.Scratch()
+	home := clidrv.Home("home")
+	path := clidrv.WriteFile(dir, "c12ev.klg", text)
+	o := clidrv.Opts{Now: dateAt(2022, 6, 15, clk[0], clk[1])}
+	for _, now := range []bool{false, true} {
+		args := []string{"today", "--diff", fmt.Sprintf("@%d:%02d", clk[0], clk[1])}
+		cmd := &cli.Today{DiffArgs: cliutil.DiffArgs{Diff: true}, InputFilesArgs: fileArgs(path)}
+		cmd.NoStyle = true
+		cmd.NoWarn = true
+		recs, closedAny := ref.Records, false
+		if now {
+			args = append(args, "--now")
+			cmd.Now = true
+			closed, ok, any := sm.CloseAt(ref.Records, today, nowMins)
+			if !ok {
+				r := clidrv.Exec(home, o, cmd)
+				if r.Panicked || r.Code == 0 {
+					c.Violation("today-now-not-refused", c12Case{"today-ev", i, fw.Txt(text), args}, fmt.Sprintf("`klog today --diff --now` must refuse an open range that cannot be closed (exit %d, panic %v)\n%s", r.Code, r.PanicVal, r.Stdout))
+				}
+				c.Outcome("today-ev-refused")
+				continue
+			}
+			recs, closedAny = closed, any
+		}
+		cs := c12Case{"today-ev", i, fw.Txt(text), args}
+		c.Eval(1)
+		c.Nontrivial(fw.HashMix(fw.HashString(text), uint64(i/n*2+len(args))))
+		r := clidrv.Exec(home, o, cmd)
+		if r.Panicked || r.Code != 0 {
+			c.Violation("today-failed", cs, fmt.Sprintf("`klog %s` failed: exit %d panic %v %s\n%s", strings.Join(args, " "), r.Code, r.PanicVal, r.Err, r.Stack))
+			return
+		}
+		// reference split
+		var cur, other []sm.Record
+		var yest []sm.Record
+		for _, rec := range recs {
+			switch sm.DayNumber(rec.Date.Date) {
+			case today:
+				cur = append(cur, rec)
+			case today - 1:
+				yest = append(yest, rec)
+			default:
+				other = append(other, rec)
+			}
+		}
+		label := "Today"
+		if len(cur) > 0 {
+			other = append(other, yest...)
+		} else if len(yest) > 0 {
+			cur, label = yest, "Yesterday"
+		}
+		type row struct {
+			label                string
+			total, should, diff string
+			end                  string
+		}
+		fmtEnd := func(rs []sm.Record) string {
+			if len(cur) == 0 {
+				return "n/a"
+			}
+			end := nowMins + sm.ShouldSum(rs) - sm.Total(rs)
+			if end < -1440 || end > 2879 {
+				return "???"
+			}
+			t := sm.TimeLit{Mins: end}.String()
+			if !closedAny {
+				return "(" + t + ")"
+			}
+			return t
+		}
+		signed := func(m int) string {
+			if m > 0 {
+				return "+" + sm.CanonicalDuration(m)
+			}
+			return sm.CanonicalDuration(m)
+		}
+		mk := func(label string, rs []sm.Record, withEnd bool) row {
+			w := row{label: label, total: sm.CanonicalDuration(sm.Total(rs)), should: sm.CanonicalDuration(sm.ShouldSum(rs)) + "!", diff: signed(sm.Total(rs) - sm.ShouldSum(rs))}
+			if now && withEnd {
+				w.end = fmtEnd(rs)
+			}
+			return w
+		}
+		all := append(append([]sm.Record{}, cur...), other...)
+		want := []row{mk(label, cur, true), mk("Other", other, false), mk("All", all, true)}
+		if len(cur) == 0 {
+			want[0] = row{label: "Today", total: "n/a", should: "n/a", diff: "n/a"}
+			if now {
+				want[0].end, want[2].end = "n/a", "n/a"
+			}
+		}
+		var got []row
+		for _, l := range strings.Split(r.Stdout, "\n") {
+			f := strings.Fields(l)
+			if len(f) < 4 || (f[0] != "Today" && f[0] != "Yesterday" && f[0] != "Other" && f[0] != "All") {
+				continue
+			}
+			g := row{label: f[0], total: f[1], should: f[2], diff: f[3]}
+			if len(f) > 4 {
+				g.end = f[4]
+			}
+			got = append(got, g)
+		}
+		// compare VALUES (minutes), not spellings
+		canon := func(rows []row) []row {
+			cv := func(s string) string {
+				if d, ok := sm.ParseDuration(strings.TrimSuffix(s, "!")); ok {
+					return fmt.Sprint(d.Mins, "min")
+				}
+				return s
+			}
+			out := make([]row, len(rows))
+			for k, w := range rows {
+				out[k] = row{w.label, cv(w.total), cv(w.should), cv(w.diff), w.end}
+			}
+			return out
+		}
+		if fmt.Sprint(canon(got)) != fmt.Sprint(canon(want)) {
+			c.Violation("today-table", cs, fmt.Sprintf("`klog %s` at 2022-06-15 %d:%02d shows rows %v, the reference evaluation gives %v\n%s", strings.Join(args[:2], " ")+map[bool]string{true: " --now"}[now], clk[0], clk[1], got, want, r.Stdout))
+			return
+		}
+		c.Outcome("today-ev")
+	}
 }
